@@ -36,3 +36,13 @@ Proof.
   - intros r _ Hr. now apply step_wf.
   - exact W.
 Qed.
+
+(* the C03 guarantees for the interpreter over the code AS IT IS COMPOSED (Impl layer) *)
+Theorem irun_wf s : wf s -> rs_wf (irun s).
+Proof. intros W. rewrite (run_refines s W). now apply run_wf. Qed.
+Theorem irun_steps s : wf s -> (steps_of (irun s) <= max_steps s)%N.
+Proof. intros W. rewrite (run_refines s W). apply run_steps. Qed.
+Theorem irun_fails_only_overflow s : wf s -> fails_only_overflow (irun s).
+Proof. intros W. rewrite (run_refines s W). apply run_fails_only_overflow. Qed.
+Theorem irun_no_panic s : wf s -> inputs_bound s -> irun s <> Panicked.
+Proof. intros W B. rewrite (run_refines s W). now apply run_no_panic. Qed.
